@@ -56,6 +56,9 @@ fn run<F: Fixed>(op: &str, a: &[&str]) -> String where F::Bits: Prim {
                 "p_wtype_2" => val(substrate_fixed::Wrapping::<F>::from_str_binary(s).map(|w| w.0)),
                 "p_wtype_8" => val(substrate_fixed::Wrapping::<F>::from_str_octal(s).map(|w| w.0)),
                 "p_wtype_16" => val(substrate_fixed::Wrapping::<F>::from_str_hex(s).map(|w| w.0)),
+                // the error's `Display` text (and, through it, `message()`): `O` when the literal parses
+                "p_errmsg_10" => match F::from_str(s) { Ok(_) => "O".to_string(), Err(e) => hex(e.to_string().as_bytes()) },
+                "p_errmsg_16" => match F::from_str_hex(s) { Ok(_) => "O".to_string(), Err(e) => hex(format!("{}", e).as_bytes()) },
                 "p_overflowing_10" => pair(F::overflowing_from_str(s)),
                 "p_overflowing_2" => pair(F::overflowing_from_str_binary(s)),
                 "p_overflowing_8" => pair(F::overflowing_from_str_octal(s)),
